@@ -440,7 +440,7 @@ static std::unique_ptr<Model> buildModel(const std::vector<Comp>& comps, int ndi
         how = "CovAniso+setRotationAnglesAndRadius";
         cov.reset(new CovAniso(c.type, ctxt));
         cov->setParam(c.param);
-        if (g_caseIndex % 2 == 1 && !angles.empty())
+        if (g_caseIndex % 2 == 1 && !angles.empty() && getenv("C03_NO_ANGLEONLY") == nullptr)
         {
           // the ranges (or scales) first, then the rotation ALONE through the same setter ("ranges" and "scales" are optional
           // arguments of CovAniso::setRotationAnglesAndRadius): the distance must follow the new axes at once
@@ -710,10 +710,11 @@ static Mat libMatrix(const AMatrix& m)
 struct Verdict
 {
   bool finite = true, pd = true, closed = true, bound = true;
+  Pts Y; // the target points drawn by this check (re-used when the components of a sum are checked for attribution)
   bool allOk() const { return finite && pd && closed && bound; }
 };
 // report = false: failures of the attributable oracles (finite, pd / cpd, bound, closed-form) are returned, not logged
-static Verdict checkModel(Rng& r, Ctx& c, Model* model, RefModel& rm, const Pts& X, const CaseCfg& cfg, bool report)
+static Verdict checkModel(Rng& r, Ctx& c, Model* model, RefModel& rm, const Pts& X, const CaseCfg& cfg, bool report, const Pts* fixedY = nullptr)
 {
   Verdict V;
   const int ndim = cfg.ndim, nvar = cfg.nvar, n = (int)X.size(), N = n * nvar;
@@ -778,6 +779,10 @@ static Verdict checkModel(Rng& r, Ctx& c, Model* model, RefModel& rm, const Pts&
       for (auto& v : y) v += r.normal() * c0.ranges[0] * r.pick(std::vector<double> {0.01, 0.3, 2.});
     Y.push_back(y);
   }
+  // attribution of a failing sum to its components must look at the SAME pairs of points: the components are then checked
+  // on the targets of the sum (the draws above are kept, so that the rest of the case is unchanged)
+  if (fixedY != nullptr && (int)fixedY->size() == m) Y = *fixedY;
+  V.Y = Y;
   std::unique_ptr<Db> db2 = mkDb(Y, ndim);
   Mat Mc = libMatrix(model->evalCovMatrix(db.get(), db2.get()));
 
@@ -1522,7 +1527,7 @@ static void run_case(Rng& r, Ctx& c)
       if (!((route == 2 || route == 3) && one[0].g.hasParam)) cf1.factoryKey = "";
       cf1.routeFiniteKey = routeKey(one);
       c.probe("sum-attribution");
-      Verdict Vk = checkModel(r, c, m1.get(), r1, X, cf1, true);
+      Verdict Vk = checkModel(r, c, m1.get(), r1, X, cf1, true, &V.Y);
       A.finite   = A.finite && Vk.finite;
       A.pd       = A.pd && Vk.pd;
       A.closed   = A.closed && Vk.closed;
